@@ -206,3 +206,9 @@ for _p in ('C01', 'C02', 'C06', 'C07', 'C11', 'C13', 'C03', 'C08'):
     PROPS[_p]['run_files'] = PROPS[_p]['run_files'] + ['TieSim.v']
     PROPS[_p]['static_files'] = PROPS[_p]['static_files'] + ['Sim.v', 'SpecMachines.v']
 PROPS['C12'].update(run_files=['Tie.v', 'TieWf.v'], static_files=MACH_STATIC + ['DecodeFacts.v'])
+
+FP_STATIC = ['Round.v', 'Fp.v', 'FpSpec.v', 'FpTables.v', 'FpDecDefs.v', 'FpExact.v', 'FpEL.v', 'FpScan.v', 'FpDecShift.v', 'FpDecBits.v', 'FpFacts.v']
+P('C04', suites=['fp', 'c04gap'], run_files=['Tie.v', 'TieFp.v'], static_files=BASE_STATIC + FP_STATIC, oracle=False, spec=True,
+  trusted=['strconv.ParseFloat compared with the spec round_ne (op fp_strconv); IEEE-754 float64 * and / modelled as round_ne of the exact result'])
+T('C04', 'Coq: round_ne specification (nearest-even in Z, representable / half-ulp / monotone lemmas), faithful model of internal/fp, finite proofs that every row of the regenerated 128-bit powers-of-ten table, the log2 approximation, float64pow10, powtab and leftcheats are exact (TieFp), scanner spec, exact path correct, Eisel-Lemire sound (complete), decimal shifts exact, parse_correct_partial; PARTIAL: the full statement is refuted (parse_correct_full_false) by the two recorded findings',
+  _TIE, 'Coq proof (layered: tables, scanner, exact, Eisel-Lemire, decimal) with stage-wise correspondence')
